@@ -35,6 +35,7 @@ type LCase struct {
 	Root  string  `json:"root"`
 	Files []LFile `json:"files"`
 	Bytes string  `json:"bytes,omitempty"` // C20 only: raw root bytes (mutated); the store is then not modelled
+	NoModel bool  `json:"outside_model,omitempty"` // path-item references: judged against the specification only
 }
 type LObs struct {
 	Out   int               `json:"outcome"` // 0 loaded, 1 error, 2 panic, 3 timeout
@@ -159,7 +160,10 @@ var lMethods = []string{"delete", "get", "patch", "post", "put"}
 
 func lPathItem(v any) *lnode {
 	m := asObj(v)
-	n := &lnode{}
+	if r, ok := m["$ref"].(string); ok {
+		return &lnode{ref: r}
+	}
+	n := &lnode{id: idOfDesc(m)}
 	if l, ok := m["parameters"].([]any); ok {
 		for i, e := range l {
 			n.add("parameters", fmt.Sprint(i), "KParameter", lParamLike(e))
@@ -252,7 +256,11 @@ func (f *LFile) Coq() string {
 			m := asObj(f.Doc[k])
 			for _, name := range sortedKeys(m) {
 				if mm := asObj(m[name]); mm != nil {
-					exts = append(exts, fmt.Sprintf("(%s, %s)", coqStrList([]string{k, name}), singleNode(mm).Coq()))
+					nd := singleNode(mm)
+					if k == "x-path-items" {
+						nd = lPathItem(mm)
+					}
+					exts = append(exts, fmt.Sprintf("(%s, %s)", coqStrList([]string{k, name}), nd.Coq()))
 				}
 			}
 		}
@@ -536,6 +544,12 @@ func observeDocMode(doc *openapi3.T, all bool) map[string]*int64 {
 				continue
 			}
 			pre := "paths\x1f" + p
+			ihops := hops
+			if item.Ref != "" {
+				o.out[pre] = idOfStr(item.Description)
+				pre, ihops = pre+"\x1f->", hops-1
+			}
+			hops := ihops
 			for i, prm := range item.Parameters {
 				o.parameter(fmt.Sprintf("%s\x1fparameters:%d", pre, i), prm, hops)
 			}
@@ -676,7 +690,11 @@ func lCoq(c *LCase, o *LObs) string {
 	if c.Entry == 1 {
 		root = ""
 	}
-	return fmt.Sprintf("mkLC %s %d%%N %s %s %s %d%%N %s %s", coqBool(c.Allow), c.Entry, coqStr(root), coqList(files), coqList(rp),
+	entry := c.Entry
+	if c.NoModel {
+		entry += 10
+	}
+	return fmt.Sprintf("mkLC %s %d%%N %s %s %s %d%%N %s %s", coqBool(c.Allow), entry, coqStr(root), coqList(files), coqList(rp),
 		o.Out, coqList(obs), coqStrList(o.Reads))
 }
 
@@ -943,6 +961,43 @@ func lRandom(r *Rng) LCase {
 	return c
 }
 
+func lPathItemCases() []LCase {
+	var out []LCase
+	obj := func(id int, kv ...any) map[string]any {
+		m := jobj(kv...)
+		m["description"] = fmt.Sprintf("id%d", id)
+		return m
+	}
+	info := jobj("title", "t", "version", "1")
+	item := func(id int) map[string]any {
+		return obj(id, "parameters", []any{jref("parameters", "P")},
+			"get", jobj("responses", jobj("200", jref("responses", "R")), "parameters", []any{jobj("name", "q", "in", "query", "description", "id50", "schema", jref("schemas", "S"))}))
+	}
+	comps := func(base int) map[string]any {
+		return jobj("parameters", jobj("P", obj(base+1, "name", "p", "in", "query", "schema", obj(base+2, "type", "string"))),
+			"responses", jobj("R", obj(base+3)), "schemas", jobj("S", obj(base+4, "type", "object")))
+	}
+	for _, entry := range []int{0, 2} {
+		for _, target := range []string{"ext.json#/paths/~1x", "ext.json#/x-path-items/shared", "sub/deep.json#/paths/~1x"} {
+			for _, rootHasSameNames := range []bool{true, false} {
+				rc := jobj()
+				if rootHasSameNames {
+					rc = comps(100)
+				}
+				root := LFile{URI: "/api/root.json", Doc: jobj("openapi", "3.0.3", "info", info, "components", rc, "paths", jobj("/a", jobj("$ref", target)))}
+				ext := LFile{URI: "/api/ext.json", Doc: jobj("openapi", "3.0.3", "info", info, "components", comps(200), "paths", jobj("/x", item(20)), "x-path-items", jobj("shared", item(21)))}
+				deep := LFile{URI: "/api/sub/deep.json", Doc: jobj("openapi", "3.0.3", "info", info, "components", comps(300), "paths", jobj("/x", item(30)))}
+				c := LCase{Allow: true, Entry: entry, Root: root.URI, Files: []LFile{root, ext, deep}, NoModel: true}
+				b, _ := json.Marshal(c.Files)
+				c.Files = nil
+				must(json.Unmarshal(b, &c.Files))
+				out = append(out, c)
+			}
+		}
+	}
+	return out
+}
+
 func lDirected() []LCase {
 	mk := func(allow bool, entry int, files ...LFile) LCase {
 		c := LCase{Allow: allow, Entry: entry, Root: files[0].URI, Files: files}
@@ -1010,6 +1065,15 @@ func lDirected() []LCase {
 			out = append(out, mk(allow, entry, LFile{URI: "/api/root.json", Doc: jobj("openapi", "3.0.3", "info", jobj("title", "t", "version", "1"), "paths", jobj(),
 				"x-defs", jobj("Thing", obj(7)), "components", jobj("schemas", jobj("A", jobj("$ref", "#/x-defs/Thing"), "B", obj(8, "items", jref("schemas", "A")))))}))
 			out = append(out, mk(allow, entry, doc("/api/root.json", jobj("schemas", jobj("A", obj(1, "items", jref("schemas", "Nope")))), nil)))
+			// URLs whose path is empty or equals the root's path on another host
+			for _, ref := range []string{"http://h.example#/components/schemas/Z", "//h.example#/components/schemas/Z", "http://h.example",
+				"http://other.example/api/root.json#/components/schemas/Z", "https://other.example/api/root.json", "file:///api/root.json#/components/schemas/K2",
+				"//other.example/api/root.json#/components/parameters/P"} {
+				out = append(out, mk(allow, entry,
+					doc("/api/root.json", jobj("schemas", jobj("A", jobj("$ref", ref), "K2", obj(4)), "parameters", jobj("Q", jobj("name", "q", "in", "query", "description", "id8", "schema", jobj("$ref", ref)))), nil),
+					doc("http://h.example", jobj("schemas", jobj("Z", obj(5))), nil),
+					doc("http://other.example/api/root.json", jobj("schemas", jobj("Z", obj(6)), "parameters", jobj("P", jobj("name", "p", "in", "query", "description", "id7", "schema", obj(9)))), nil)))
+			}
 			out = append(out, mk(allow, entry,
 				doc("http://h.example/defs/root.json", jobj("schemas", jobj("A", jobj("$ref", "other.json#/components/schemas/Z"), "B", jobj("$ref", "//h.example/defs/other.json#/components/schemas/Z"))), nil),
 				doc("http://h.example/defs/other.json", jobj("schemas", jobj("Z", obj(3))), nil)))
@@ -1025,11 +1089,13 @@ func runLoaderProp(prop string, judge string) {
 			cases = loadReplayCases[LCase](replay)
 		} else {
 			cases = append(loadCorpus[LCase](prop), lDirected()...)
+			cases = append(cases, lPathItemCases()...)
 			r := NewRng(seed)
 			for i := 0; i < n; i++ {
 				cases = append(cases, lRandom(r))
 			}
 			if prop == "C20" {
+				cases = append(cases, c20Directed()...)
 				cases = append(cases, c20Mutants(NewRng(seed+77), n/2)...)
 			}
 		}
@@ -1278,6 +1344,66 @@ func c20Mutants(r *Rng, n int) []LCase {
 		base.Bytes = s
 		base.Entry = 1 + r.Intn(2)
 		out = append(out, base)
+	}
+	return out
+}
+
+// C20: documents aimed at the reflective drill-down (JSON pointers below a component, into lists at
+// and beyond their length, into scalars) and at the typed decoders (every schema keyword with a
+// value of every JSON shape)
+func c20Directed() []LCase {
+	var out []LCase
+	mk := func(doc string) {
+		for _, entry := range []int{1, 2} {
+			out = append(out, LCase{Allow: true, Entry: entry, Root: "/api/root.json", Bytes: doc,
+				Files: []LFile{{URI: "/api/root.json", Doc: map[string]any{"openapi": "3.0.3"}}}})
+		}
+	}
+	frags := []string{"#/components/schemas/A/allOf/0", "#/components/schemas/A/allOf/1", "#/components/schemas/A/allOf/2", "#/components/schemas/A/allOf/-1",
+		"#/components/schemas/A/allOf/x", "#/components/schemas/A/properties/x", "#/components/schemas/A/properties", "#/components/schemas/A/enum/0",
+		"#/components/schemas/A/enum/1", "#/components/schemas/A/required/0", "#/components/schemas/A/required/1", "#/components/schemas/A/type",
+		"#/components/schemas/A/items", "#/components/schemas/A/additionalProperties", "#/components/schemas/A/x-ext/k", "#/components/schemas/A/x-list/0",
+		"#/components/schemas/A/x-list/1", "#/components/schemas/A/x-list/2", "#/components/schemas", "#/components", "#/", "#", "#/paths", "#/paths/~1a",
+		"#/paths/~1a/get", "#/paths/~1a/get/responses", "#/paths/~1a/get/responses/200", "#/paths/~1a/get/parameters/0", "#/paths/~1a/get/parameters/1",
+		"#/paths/~1a/parameters/0", "#/paths/~1a/parameters/1", "#/info", "#/info/title", "#/servers/0", "#/servers/1", "#/tags/0", "#/tags/0/name",
+		"#/tags/1", "#/security/0", "#/openapi", "#/components/parameters/P/schema", "#/components/parameters/P/examples/e", "#/components/responses/R/headers/H",
+		"#/components/responses/R/content/application~1json/schema", "#/components/requestBodies/B/content/application~1json/examples/e",
+		"#/x-top/a/0/b", "#/x-top/a/1", "#/components/schemas/A/allOf/99999999999999999999", "#/components/schemas/A/allOf/4294967296"}
+	base := func(ref string, kind string) string {
+		target := fmt.Sprintf(`{"$ref":%q}`, ref)
+		sch, par, resp := `{"type":"string"}`, `{"name":"q","in":"query","schema":{"type":"string"}}`, `{"description":"d"}`
+		switch kind {
+		case "schema":
+			sch = target
+		case "parameter":
+			par = target
+		case "response":
+			resp = target
+		}
+		return `{"openapi":"3.0.3","info":{"title":"t","version":"1"},"servers":[{"url":"/"}],"tags":[{"name":"x"}],"security":[{}],"x-top":{"a":[{"b":{"type":"string"}}]},` +
+			`"paths":{"/a":{"parameters":[{"name":"p","in":"query","schema":{"type":"string"}}],"get":{"parameters":[` + par + `],"responses":{"200":` + resp + `}}}},` +
+			`"components":{"schemas":{"A":{"type":"object","allOf":[{"type":"object"}],"properties":{"x":{"type":"integer"}},"enum":[1],"required":["x"],"items":{"type":"string"},` +
+			`"additionalProperties":true,"x-ext":{"k":{"type":"string"}},"x-list":[{"type":"string"},7]},"B":` + sch + `},` +
+			`"parameters":{"P":{"name":"p","in":"query","schema":{"type":"string"},"examples":{"e":{"value":"v"}}}},` +
+			`"responses":{"R":{"description":"d","headers":{"H":{"schema":{"type":"string"}}},"content":{"application/json":{"schema":{"type":"string"}}}}},` +
+			`"requestBodies":{"B":{"content":{"application/json":{"schema":{"type":"string"},"examples":{"e":{"value":"v"}}}}}}}}`
+	}
+	for _, fr := range frags {
+		for _, kind := range []string{"schema", "parameter", "response"} {
+			mk(base(fr, kind))
+		}
+	}
+	// every schema keyword with a value of every JSON shape
+	keys := []string{"type", "format", "title", "description", "enum", "default", "example", "externalDocs", "uniqueItems", "exclusiveMinimum", "exclusiveMaximum",
+		"nullable", "readOnly", "writeOnly", "allowEmptyValue", "deprecated", "xml", "minimum", "maximum", "multipleOf", "minLength", "maxLength", "pattern",
+		"minItems", "maxItems", "items", "required", "properties", "minProperties", "maxProperties", "additionalProperties", "discriminator", "oneOf", "anyOf", "allOf", "not", "x-ext"}
+	vals := []string{"null", "true", "0", "-1", "1.5", "1e400", `""`, `"date"`, `"string"`, "[]", "[1]", `["a"]`, "{}", `{"a":1}`, `{"type":"string"}`, `[{"type":"string"}]`, `{"$ref":"#/components/schemas/A"}`}
+	for _, k := range keys {
+		for _, v := range vals {
+			for _, ctx := range []string{`"type":"string","format":"date"`, `"type":"array","items":{}`, `"type":"object"`} {
+				mk(`{"openapi":"3.0.3","info":{"title":"t","version":"1"},"paths":{},"components":{"schemas":{"A":{"type":"string"},"S":{` + ctx + `,` + fmt.Sprintf("%q", k) + `:` + v + `}}}}`)
+			}
+		}
 	}
 	return out
 }
